@@ -1010,6 +1010,18 @@ class SymStr:
     def __gt__(self, o):
         return self.b > (o.b if isinstance(o, SymStr) else o.encode())
 
+    def __add__(self, o):
+        if isinstance(o, SymStr):
+            return SymStr(SymBytes(list(self.b.items) + list(o.b.items)))
+        if isinstance(o, builtins.str):
+            return SymStr(SymBytes(list(self.b.items) + list(o.encode())))
+        return NotImplemented
+
+    def __radd__(self, o):
+        if isinstance(o, builtins.str):
+            return SymStr(SymBytes(list(o.encode()) + list(self.b.items)))
+        return NotImplemented
+
     def split(self, sep=None):
         if sep is None or len(sep) != 1:
             raise NotImplementedError
@@ -1029,7 +1041,11 @@ class SymStr:
 
     def __getitem__(self, i):
         r = self.b[i]
-        return SymStr(r) if isinstance(r, SymBytes) else SymStr(SymBytes([r]))
+        if isinstance(r, SymBytes):
+            return SymStr(r)
+        if isinstance(r, (builtins.bytes, builtins.bytearray)):
+            return builtins.bytes(r).decode()
+        return SymStr(SymBytes([r]))
 
     def __bool__(self):
         return len(self.b) > 0
@@ -1152,6 +1168,13 @@ class _Str(metaclass=_StrMeta):
             return DecStr(x)
         if isinstance(x, (SymStr, DecStr, SymHex)):
             return x
+        if not a and type(x).__module__.startswith('pytezos') and hasattr(x, 'value'):
+            try:
+                r = type(x).__str__(x)
+                if isinstance(r, (SymStr, DecStr, SymHex, builtins.str)):
+                    return r
+            except Exception:
+                pass
         return builtins.str(x, *a)
 
 
@@ -1390,10 +1413,33 @@ def run(ob: Ob, excluded: List[str], timeout: float) -> Dict[str, Any]:
     return res
 
 
+class _SymWitness:
+    """w[name] inside a region expression -> the proxy of the symbol of that name created so far"""
+
+    def __init__(self, ex):
+        self.ex = ex
+
+    def __getitem__(self, name):
+        v = self.ex.symbols[name]
+        if isinstance(v, list):
+            return SymBytes([SymInt(z3.ZeroExt(self.ex.W - 8, b)) for b in v])
+        if z3.is_bool(v):
+            return SymBool(v)
+        if z3.is_bv(v):
+            return SymInt(v)
+        return IntZ(v)
+
+    def get(self, name, default=None):
+        return self[name] if name in self.ex.symbols else default
+
+    def __contains__(self, name):
+        return name in self.ex.symbols
+
+
 def apply_regions(ex: Explorer, env: Dict[str, Any], P: dict):
     """Assume the negation of every known-finding region (evaluated on the proxies)."""
     for r in getattr(ex, '_excluded', []) or []:
-        scope = {'P': P, 'sym_and': sym_and, 'sym_or': sym_or, 'sym_not': sym_not}
+        scope = {'P': P, 'sym_and': sym_and, 'sym_or': sym_or, 'sym_not': sym_not, 'w': _SymWitness(ex)}
         scope.update(env)
         v = eval(r, {'__builtins__': builtins.__dict__}, scope)
         if isinstance(v, SymBool):
